@@ -317,6 +317,25 @@ func (vc *VC) stringConst(s string) Value {
 	return VString{p, B.Int(int64(len(s)))}
 }
 
+// constStringAt: byte idx of a string constant, as a table function of the literal.
+func (vc *VC) constStringAt(ptr, idx *Term) *Term {
+	for s, p := range vc.strConsts {
+		if p != ptr {
+			continue
+		}
+		if len(s) == 0 || len(s) > 256 {
+			return nil
+		}
+		vals := make([]*big.Int, len(s))
+		for i := range vals {
+			vals[i] = big.NewInt(int64(s[i]))
+		}
+		name := vc.B.tableFun(fmt.Sprintf("strlit_%x", hashString(s)), vals, false)
+		return vc.B.App(name, idx)
+	}
+	return nil
+}
+
 func (vc *VC) zeroValue(t types.Type) Value {
 	B := vc.B
 	switch u := t.Underlying().(type) {
@@ -1213,6 +1232,15 @@ func (vc *VC) bitop(op token.Token, a, b *Term, bits uint, signed bool) *Term {
 			return fromU(B.Sub(ua, B.Mod(ua, B.Big(pow2(uint(ki))))))
 		}
 	}
+	if op == token.AND_NOT && b.IsConst() {
+		ub := new(big.Int).Mod(b.ival, pow2(bits))
+		k := ub.BitLen()
+		if new(big.Int).Add(ub, big.NewInt(1)).Cmp(pow2(uint(k))) == 0 {
+			// x &^ (2^k-1): clear the low k bits
+			ua := toU(a)
+			return fromU(B.Sub(ua, B.Mod(ua, B.Big(pow2(uint(k))))))
+		}
+	}
 	name := map[token.Token]string{token.AND: "band", token.OR: "bor", token.XOR: "bxor", token.AND_NOT: "bandnot"}[op]
 	name = fmt.Sprintf("%s%d", name, bits)
 	B.DefineFun(name, []Sort{SInt, SInt}, SInt, "", nil)
@@ -1465,7 +1493,27 @@ func (f *Frame) execConvert(st *State, x *ssa.Convert) Value {
 		p := B.Fresh(f.prefix+x.Name()+".ptr", SInt)
 		vc.fact(B.And(B.Le(B.Int(0), p), B.Le(B.Add(p, n), B.Big(maxAddr)), B.Implies(B.Gt(n, B.Int(0)), B.Gt(p, B.Int(0)))))
 		vc.freshRegion(st, p, n)
-		vc.note("string<->[]byte conversion content copy is opaque")
+		copied := false
+		if sv, ok := v.(VString); ok && n.IsConst() && n.ival.IsInt64() && n.ival.Int64() <= 32 && isByteSlice(to) {
+			// []byte("literal"): the copy's contents are the constant's bytes
+			M := vc.heapGet(st, "M")
+			all := true
+			for i := int64(0); i < n.ival.Int64(); i++ {
+				b := vc.constByte(B.Add(sv.Ptr, B.Int(i)))
+				if b == nil {
+					all = false
+					break
+				}
+				M = B.Store(M, B.Add(p, B.Int(i)), b)
+			}
+			if all {
+				vc.heapSet(st, "M", M)
+				copied = true
+			}
+		}
+		if !copied {
+			vc.note("string<->[]byte conversion content copy is opaque")
+		}
 		if isString(to) {
 			return VString{p, n}
 		}
@@ -1677,6 +1725,9 @@ func (f *Frame) execIndex(st *State, x *ssa.Index) Value {
 	case *types.Basic: // string
 		if s, ok := base.(VString); ok {
 			f.indexObl(st, idx, s.Len, what, x.Pos())
+			if t := vc.constStringAt(s.Ptr, idx); t != nil {
+				return VT{t}
+			}
 			return VT{vc.readM(st, B.Add(s.Ptr, idx), 1, false)}
 		}
 	}
@@ -1693,6 +1744,9 @@ func (f *Frame) execLookup(st *State, x *ssa.Lookup) Value {
 		}
 		idx := f.lookup(st, x.Index).(VT).T
 		f.indexObl(st, idx, s.Len, x.X.Name()+"["+x.Index.Name()+"]", x.Pos())
+		if t := vc.constStringAt(s.Ptr, idx); t != nil {
+			return VT{t}
+		}
 		return VT{vc.readM(st, B.Add(s.Ptr, idx), 1, false)}
 	}
 	vc.note("map lookup is opaque")
